@@ -2,6 +2,7 @@ SPECIFICATION Spec
 CONSTANTS
   MaxItems = 7
   WireWeight = 25
+  WithAC = FALSE
   MinItems = 3
   Syms = {"R", "G", "Z", "C", "L", "V", "I", "ACV", "ACI", "CV", "CI", "RectV", "RectI"}
 INVARIANT Check
